@@ -1,14 +1,73 @@
 //go:build verif
 
 // Contracts for package hashing (comment-only; read by /verif/govc).
+// Vocabulary (digest, mhEnc, b64, ...) is declared in /verif/contracts/externals.spec.
 
 package hashing
 
-//@ func IsValidModelMultihash(model, modelMultihash) (err)
+//@ spec func hashFor(code uint) crypto.Hash = ite(code == 18, crypto.SHA256, crypto.SHA512)
+//@ spec func supportedCode(code uint) bool = code == 18 || code == 19
+//
+// mhash(c, code): the encoded model multihash of canonical bytes c
+//@ spec func mhBytes(data string, code uint) string = mhEnc(digest(hashFor(code), data), uint64(code))
+//@ spec func mhash(c string, code uint) string = b64(mhBytes(c, code))
+//@ spec func decodable(s string) bool = b64ok(s) && mhDecOK(unb64(s))
+//@ spec func codeOf(s string) uint64 = mhCode(unb64(s))
+
+//@ func GetHashFromMultihash(multihashCode) (h, err)
 //@   pure
+//@   ensures [iff] (err == nil) == supportedCode(multihashCode)
+//@   ensures [table] err == nil ==> h == hashFor(multihashCode)
+
+// GetHash wraps crypto.Hash.New / Write / Sum (stateful hash.Hash objects are not
+// modelled): its contract is assumed; the thorough tier spot-checks it.
+//@ func GetHash(hash, data) (ret, err)
+//@   pure
+//@   trusted "GetHash returns hash.New().Sum over data; available iff the hash is linked in"
+//@   ensures [iff] (err == nil) == digestOK(hash)
+//@   ensures [value] err == nil ==> string(ret) == digest(hash, string(data))
+
+//@ func ComputeMultihash(multihashCode, bytes) (ret, err)
+//@   pure
+//@   ensures [iff] (err == nil) == (supportedCode(multihashCode) && digestOK(hashFor(multihashCode)) &&
+//@        mhEncOK(digest(hashFor(multihashCode), string(bytes)), uint64(multihashCode)))
+//@   ensures [value] err == nil ==> string(ret) == mhBytes(string(bytes), multihashCode)
+
+//@ func GetMultihash(encodedMultihash) (ret, err)
+//@   pure
+//@   ensures [iff] (err == nil) == decodable(encodedMultihash)
+//@   ensures [value] err == nil ==> ret != nil && ret.Code == codeOf(encodedMultihash) && string(ret.Digest) == mhDigest(unb64(encodedMultihash))
+
+//@ func GetMultihashCode(encodedMultihash) (code, err)
+//@   pure
+//@   ensures [iff] (err == nil) == decodable(encodedMultihash)
+//@   ensures [value] err == nil ==> code == codeOf(encodedMultihash)
 
 //@ func IsComputedUsingMultihashAlgorithms(encodedMultihash, codes) (r)
 //@   pure
-//
-//@ func GetMultihashCode(encodedMultihash) (code, err)
+//@   ensures [iff] r == (decodable(encodedMultihash) && (exists i int :: 0 <= i && i < len(codes) && uint64(codes[i]) == codeOf(encodedMultihash)))
+//@   loop 0 invariant forall j int :: 0 <= j && j < $k ==> uint64(codes[j]) != codeOf(encodedMultihash)
+
+//@ func CalculateModelMultihash(value, alg) (ret, err)
 //@   pure
+//@   let cb, cerr := canonicalizer.MarshalCanonical(value)
+//@   ensures [iff] (err == nil) == (cerr == nil && supportedCode(alg) && digestOK(hashFor(alg)) && mhEncOK(digest(hashFor(alg), string(cb)), uint64(alg)))
+//@   ensures [value] err == nil ==> ret == mhash(string(cb), alg)
+
+//@ func IsValidModelMultihash(model, modelMultihash) (err)
+//@   pure
+//@   let c, cerr := CalculateModelMultihash(model, uint(codeOf(modelMultihash)))
+//@   ensures [iff] (err == nil) == (decodable(modelMultihash) && cerr == nil && c == modelMultihash)
+
+// C06: validation against a hash computed from w succeeds exactly when v and w have the same
+// canonical bytes. "<==" is congruence; "==>" needs injectivity of b64 . mhEnc . digest, which is
+// collision resistance of the hash: a hypothesis of the lemma, not something decided here.
+//@ lemma C06_iff(v interface{}, w interface{}, c uint)
+//@   requires c == 18 || c == 19
+//@   let h := CalculateModelMultihash(w, c)
+//@   let cv := string(canonicalizer.MarshalCanonical(v).ret)
+//@   let cw := string(canonicalizer.MarshalCanonical(w).ret)
+//@   requires h.err == nil && canonicalizer.MarshalCanonical(v).err == nil
+//@   requires mhash(cv, c) == mhash(cw, c) ==> cv == cw
+//@   ensures [iff] (IsValidModelMultihash(v, h.ret) == nil) == (cv == cw)
+//@   ensures [code] GetMultihashCode(h.ret).err == nil && GetMultihashCode(h.ret).code == uint64(c)
